@@ -1007,4 +1007,182 @@ theorem C12_log_quote_strong_false : ¬ C12_log_quote_strong := by
   revert this
   decide
 
+/-! ### the stronger reading holds for backslash-free atoms -/
+
+/-- scanner over the `repr` text: `n` = neutral, `b1` = one backslash seen, `b2` = the pair `\\`
+    seen (a double quote must follow) -/
+inductive St where
+  | n | b1 | b2
+  deriving DecidableEq
+
+/-- run the scanner; `none` = a quote without its `\\` pair, or a `\\` pair without a quote -/
+def run : St → Text → Option St
+  | st, [] => some st
+  | .n, c :: rest => if c = '\\' then run .b1 rest else if c = '"' then none else run .n rest
+  | .b1, c :: rest => if c = '\\' then run .b2 rest else if c = '"' then none else run .n rest
+  | .b2, c :: rest => if c = '"' then run .n rest else none
+
+theorem run_append (t l : Text) : ∀ st, run st (t ++ l) = (run st t).bind fun st' => run st' l := by
+  induction t with
+  | nil => intro st; simp [run]
+  | cons c rest ih =>
+    intro st
+    cases st <;> simp only [List.cons_append, run] <;> (repeat' split) <;> simp [ih]
+
+/-- what the scanner accepts, `str.replace('\\\\', '\\')` turns into text in which every quote
+    has an odd run of backslashes before it -/
+theorem undouble_strong (l : Text) :
+    ((run .n l).isSome → strongAux false (undouble l) = true) ∧
+    ((run .b2 l).isSome → strongAux true (undouble l) = true) ∧
+    ((run .b1 l).isSome → (∀ rest, l ≠ '\\' :: rest) → strongAux true (undouble l) = true) := by
+  fun_induction undouble l with
+  | case1 => simp [strongAux]
+  | case2 c =>
+    refine ⟨?_, ?_, ?_⟩
+    · intro h
+      by_cases h1 : c = '\\'
+      · subst h1; decide
+      · by_cases h2 : c = '"'
+        · subst h2; simp [run] at h
+        · simp [strongAux, h2]
+    · intro h
+      by_cases h2 : c = '"'
+      · subst h2; decide
+      · simp [run, h2] at h
+    · intro h hne
+      have h1 : c ≠ '\\' := fun hc => hne [] (by rw [hc])
+      by_cases h2 : c = '"'
+      · subst h2; simp [run] at h
+      · simp [strongAux]
+  | case3 a b rest hab ih =>
+    obtain ⟨rfl, rfl⟩ := hab
+    refine ⟨?_, ?_, ?_⟩
+    · intro h
+      have h' : (run .b2 rest).isSome := by simpa [run] using h
+      have := ih.2.1 h'
+      simp [strongAux, this]
+    · intro h; simp [run] at h
+    · intro _ hne; exact absurd rfl (hne _)
+  | case4 a b rest hab ih =>
+    refine ⟨?_, ?_, ?_⟩
+    · intro h
+      by_cases h1 : a = '\\'
+      · subst h1
+        have hb : b ≠ '\\' := fun hb => hab ⟨rfl, hb⟩
+        have h' : (run .b1 (b :: rest)).isSome := by simpa [run] using h
+        have := ih.2.2 h' (fun r hr => hb (by cases hr; rfl))
+        simp [strongAux, this]
+      · by_cases h2 : a = '"'
+        · subst h2; simp [run] at h
+        · have h' : (run .n (b :: rest)).isSome := by simpa [run, h1, h2] using h
+          have := ih.1 h'
+          have e : (a == '\\') = false := by simp [h1]
+          simp [strongAux, h2, e, this]
+    · intro h
+      by_cases h2 : a = '"'
+      · subst h2
+        have h' : (run .n (b :: rest)).isSome := by simpa [run] using h
+        have := ih.1 h'
+        simp [strongAux, this]
+      · simp [run, h2] at h
+    · intro h hne
+      have h1 : a ≠ '\\' := fun hc => hne (b :: rest) (by rw [hc])
+      by_cases h2 : a = '"'
+      · subst h2; simp [run, h1] at h
+      · have h' : (run .n (b :: rest)).isSome := by simpa [run, h1, h2] using h
+        have := ih.1 h'
+        simp [strongAux, this]
+
+/-- a byte that is neither `"` nor `\` is written as a token the scanner passes over -/
+theorem reprByte_run :
+    ∀ b, b < 256 → b ≠ 34 → b ≠ 92 →
+      run .n (reprByte 39 b) = some .n ∧ run .n (reprByte 34 b) = some .n := by
+  decide +kernel
+
+theorem flatMap_reprByte_run (q : Nat) (hq : q = 34 ∨ q = 39) (bs : List Nat)
+    (h : ∀ b ∈ bs, b < 256 ∧ b ≠ 34 ∧ b ≠ 92) : run .n (bs.flatMap (reprByte q)) = some .n := by
+  induction bs with
+  | nil => rfl
+  | cons b rest ih =>
+    rw [List.flatMap_cons, run_append]
+    have hb := h b (by simp)
+    have := reprByte_run b hb.1 hb.2.1 hb.2.2
+    rcases hq with rfl | rfl
+    · rw [this.2]; exact ih (fun x hx => h x (by simp [hx]))
+    · rw [this.1]; exact ih (fun x hx => h x (by simp [hx]))
+
+/-- bytes of one character of the atom after `v.replace('"', '\\"').encode('utf8')` -/
+def charBytes (c : Char) : List Nat :=
+  if c = '"' then [92, 34] else (String.utf8EncodeChar c).map UInt8.toNat
+
+theorem bytes_eq_flatMap (s : Text) :
+    (utf8 (escQuote s)).map UInt8.toNat = s.flatMap charBytes := by
+  induction s with
+  | nil => rfl
+  | cons c t ih =>
+    have hcons : escQuote (c :: t) = (if c = '"' then ['\\', '"'] else [c]) ++ escQuote t := by
+      simp [escQuote]
+    rw [hcons, List.flatMap_cons, ← ih]
+    unfold charBytes
+    split
+    · simp only [List.cons_append, List.nil_append, utf8_cons, List.map_append]; rfl
+    · simp only [List.cons_append, List.nil_append, utf8_cons, List.map_append]
+
+theorem repr_accepted (q : Nat) (s : Text) (hs : ∀ c ∈ s, c ≠ '\\')
+    (hq : q = 39 ∨ (q = 34 ∧ ∀ c ∈ s, c ≠ '"')) :
+    run .n ((s.flatMap charBytes).flatMap (reprByte q)) = some .n := by
+  induction s with
+  | nil => rfl
+  | cons c t ih =>
+    have iht := ih (fun x hx => hs x (by simp [hx]))
+      (hq.elim Or.inl fun h => Or.inr ⟨h.1, fun x hx => h.2 x (by simp [hx])⟩)
+    rw [List.flatMap_cons, List.flatMap_append, run_append]
+    have hc : c ≠ '\\' := hs c (by simp)
+    by_cases hquote : c = '"'
+    · subst hquote
+      rcases hq with rfl | ⟨_, h⟩
+      · have : run .n (List.flatMap (reprByte 39) (charBytes '"')) = some .n := by decide +kernel
+        rw [this]; exact iht
+      · exact absurd rfl (h '"' (by simp))
+    · have hq' : q = 34 ∨ q = 39 := hq.elim Or.inr fun h => Or.inl h.1
+      have : run .n (List.flatMap (reprByte q) (charBytes c)) = some .n := by
+        apply flatMap_reprByte_run q hq'
+        intro b hb
+        unfold charBytes at hb
+        rw [if_neg hquote] at hb
+        simp only [List.mem_map] at hb
+        obtain ⟨u, hu, rfl⟩ := hb
+        refine ⟨UInt8.toNat_lt u, ?_, ?_⟩
+        · intro h34
+          exact hquote (char_eq_of_toNat c '"' (by rw [utf8EncodeChar_ascii c 34 (by decide) u hu h34]; rfl))
+        · intro h92
+          exact hc (char_eq_of_toNat c '\\' (by rw [utf8EncodeChar_ascii c 92 (by decide) u hu h92]; rfl))
+      rw [this]; exact iht
+
+/-- **C12_log_quote_strong_partial**: an atom WITHOUT a backslash is logged so that every double
+    quote is preceded by an odd number of backslashes (exactly one).  The hypothesis excludes
+    exactly the F13 witness class. -/
+theorem C12_log_quote_strong_partial (s : Text) (hs : ∀ c ∈ s, c ≠ '\\') :
+    QuotesStrong (logEscape s) := by
+  unfold QuotesStrong logEscape bytesReprBody
+  apply (undouble_strong _).1
+  rw [bytes_eq_flatMap]
+  rcases reprQuote_cases (s.flatMap charBytes) with hq | hq
+  · rw [hq]
+    have hno := reprQuote_34 _ hq
+    have : run .n ((s.flatMap charBytes).flatMap (reprByte 34)) = some .n := by
+      apply repr_accepted 34 s hs (Or.inr ⟨rfl, ?_⟩)
+      intro c hc hcq
+      subst hcq
+      exact hno 34 (by
+        simp only [List.mem_flatMap]
+        exact ⟨'"', hc, by decide⟩) rfl
+    rw [this]; rfl
+  · rw [hq]
+    rw [repr_accepted 39 s hs (Or.inl rfl)]; rfl
+
+/-- non-vacuity: a backslash-free atom with a quote, and what is logged for it -/
+example : (∀ c ∈ ['a', '"', 'b'], c ≠ '\\') ∧ logEscape ['a', '"', 'b'] = ['a', '\\', '"', 'b'] := by
+  decide +kernel
+
 end CpProofs.C12
